@@ -4,6 +4,7 @@
 // foreign thread); every response's tag must be the function of its request and no request may be
 // answered twice; shutdown() is fired at seeded points (idle, with connections open, mid-load,
 // with slow handlers in flight, twice) and must return, stop the acceptor and end all threads.
+#define LV_DEFINE_INTERPOSERS 1   // (plain flavour only: the storm stage uses the slow-acceptor fault point; under ThreadSanitizer live.h leaves them out)
 #include "live.h"
 #include <pistache/endpoint.h>
 #include <pistache/http.h>
@@ -315,6 +316,23 @@ int main(int argc, char** argv) {
                 if (unanswered) viol("c09:burst-connection-not-served", cfg + ": " + std::to_string(unanswered) + " of " + std::to_string(burst.size()) + " connections opened while every worker was in a handler were never answered (" + firstBad + ")", Json().str("config", cfg).num("unanswered", unanswered).num("burst", (long long)burst.size()).done());
                 else if (wrong) viol("c09:wrong-response:burst", cfg + ": " + firstBad, Json().str("config", cfg).done());
             }
+            // slow acceptor: the acceptor thread is delayed (interposed write(): 120 ms right after it has signalled a worker's queue of new
+            // peers), so that the worker serves the connection's first request - a 12 MiB answer to a client that reads late, most of it parked
+            // in the connection's write queue - before the acceptor has finished its own bookkeeping for that connection
+#if LV_INTERPOSE
+            {
+                lv::ip().acceptorDelayMs = 120;
+                std::vector<std::unique_ptr<lv::Conn>> late;
+                for (int k = 0; k < 2 * workers; k++) { late.emplace_back(new lv::Conn()); if (late.back()->open_to(port, 4096)) late.back()->send_all("GET /blob/12288 HTTP/1.1\r\nHost: x\r\n\r\n"); else late.pop_back(); }
+                lv::msleep(400);
+                lv::ip().acceptorDelayMs = 0;
+                long shortAnswers = 0; std::string firstBad;
+                for (size_t k = 0; k < late.size(); k++) { std::string b; lv::HttpMsg m = lv::read_response(*late[k], b, 0, (int)(8000 * lv::load_factor()));
+                    if (!m.complete || m.status != 200 || m.body.size() != 12288u * 1024u || m.body.find_first_not_of('b') != std::string::npos) { shortAnswers++; if (firstBad.empty()) firstBad = "connection " + std::to_string(k) + ": " + (m.complete ? "status " + std::to_string(m.status) + ", " + std::to_string(m.body.size()) + " body bytes" : "incomplete after " + std::to_string(b.size()) + " bytes (" + m.error + ")"); } }
+                count("slow_acceptor_connections", (long)late.size()); count("slow_acceptor_delays", lv::ip().acceptorDelays.load());
+                if (shortAnswers) viol("c09:answer-incomplete:slow-acceptor", cfg + ": " + std::to_string(shortAnswers) + " of " + std::to_string(late.size()) + " large answers to connections accepted by a delayed acceptor did not arrive completely (" + firstBad + ")", Json().str("config", cfg).num("incomplete", shortAnswers).done());
+            }
+#endif
             std::vector<std::thread> th; std::vector<ClientStats> cs((size_t)churners);
             for (int k = 0; k < churners; k++) th.emplace_back([&, k] { churn_loop(port, 100 + k, nconn, seed * 977 + (uint64_t)k, false, cs[(size_t)k], cfg); });
             for (auto& t : th) t.join();
